@@ -51,10 +51,10 @@ T(p, n) == [pkg |-> p, name |-> n]
 X(p, n) == [pkg |-> p, node |-> n]
 
 \* analysis-centred: two packages, an entry class, one type of the unnamed package
-U_analysis == <<T(<<"a">>, "A"), T(<<"a">>, "Main"), T(<<"b">>, "B"), T(<<>>, "C")>>
+U_analysis == <<T(<<"a">>, "A"), T(<<"a">>, "Main"), T(<<"b">>, "AMain"), T(<<>>, "C")>>
 \* merge-centred: package names whose concatenations collide ("a"+"bb" = "ab"+"b")
 \* two types out of three, for the runs with two relation items per class
-U_pair     == <<T(<<"a">>, "A"), T(<<"a">>, "Main"), T(<<"b">>, "B")>>
+U_pair     == <<T(<<"a">>, "A"), T(<<"a">>, "Main"), T(<<"b">>, "MainB")>>
 U_collide  == <<T(<<"a">>, "A"), T(<<"ab">>, "A"), T(<<"b">>, "B"), T(<<"bb">>, "B")>>
 \* nested packages, top-level collisions under merge-package, Main, the unnamed package
 U_nested   == <<T(<<"a">>, "A"), T(<<"a", "b">>, "B"), T(<<"ab">>, "A"), T(<<"b", "a">>, "B"),
